@@ -196,6 +196,144 @@ def gen_pattern(r, names):
     return out
 
 
+# ---- literal * literal families: what a backtracking matcher must get right -------------------------
+STAR_ALPHA = [b"ab", b"ab:", b"abX", b"ax:", b"se:si"]
+
+
+def overlap_segments(r, k):
+    """k literal segments; each following one begins with a non-empty suffix of its predecessor, so the
+    text after a `*` can be found inside text that the literal before the `*` has already consumed.
+    Returns [(segment, overlap length with the previous segment)]."""
+    alpha = r.choice(STAR_ALPHA)
+    u = bytes(r.choice(alpha) for _ in range(r.range(1, 4)))
+    segs = [(u, 0)]
+    for _ in range(k - 1):
+        prev = segs[-1][0]
+        o = r.range(1, len(prev)) if r.chance(5, 6) else 0
+        v = (prev[len(prev) - o:] if o else b"") + bytes(r.choice(alpha) for _ in range(r.range(0 if o else 1, 2)))
+        segs.append((v, o))
+    return segs, alpha
+
+
+def vary_literal(r, seg):
+    """a literal segment with some characters replaced by `?`, a class, a range, a negated class, an escape"""
+    out = b""
+    for c in seg:
+        j = r.below(10)
+        ch = bytes([c])
+        if j == 0:
+            out += b"?"
+        elif j == 1:
+            out += b"[" + ch + b"q]"
+        elif j == 2 and 0x30 <= c < 0x7A:
+            out += b"[" + bytes([c - 1]) + b"-" + bytes([c + 1]) + b"]"
+        elif j == 3:
+            out += b"[^q]"
+        elif j == 4:
+            out += b"\\" + ch
+        else:
+            out += ch
+    return out
+
+
+def gen_star_family(r):
+    """Patterns u*v (u*v*w, *u*v, u*v*, star runs, ? and classes mixed in) over overlapping literals, and the
+    names that separate a correct matcher from one that backtracks into consumed text:
+    merged (u·v with the overlap written once: too short), exact (u·v), padded (u·x·v), and shortenings."""
+    k = r.choice([2, 2, 2, 3])
+    segs, alpha = overlap_segments(r, k)
+    lits = [sg for sg, _ in segs]
+    pats = []
+    for _ in range(r.range(2, 4)):
+        parts = [vary_literal(r, sg) if r.chance(1, 2) else sg for sg in lits]
+        star = lambda: r.choice([b"*", b"*", b"*", b"**", b"*?*", b"***", b"?*"])
+        body = parts[0]
+        for q in parts[1:]:
+            body += star() + q
+        lead = r.below(6)
+        if lead == 0:
+            body = b"*" + body
+        elif lead == 1:
+            body = body + b"*"
+        elif lead == 2:
+            body = b"*" + body + b"*"
+        pats.append(body)
+    pats.append(b"*".join(lits))
+    merged = lits[0]
+    for sg, o in segs[1:]:
+        merged += sg[o:]
+    exact = b"".join(lits)
+    names = {"merged": [merged], "exact": [exact], "padded": [], "short": [], "other": []}
+    for _ in range(2):
+        x = bytes(r.choice(alpha) for _ in range(r.range(1, 2)))
+        names["padded"].append(x.join(lits))
+        names["padded"].append(lits[0] + x + b"".join(lits[1:]))
+    # shortenings: one or two characters removed, truncations, single segments
+    for base in (merged, exact):
+        for _ in range(3):
+            if len(base) >= 1:
+                i = r.below(len(base))
+                names["short"].append(base[:i] + base[i + 1:])
+        if len(base) >= 2:
+            names["short"].append(base[:len(base) - 1])
+            names["short"].append(base[1:])
+    names["short"] += lits
+    names["other"] += [merged + bytes([r.choice(alpha)]), bytes([r.choice(alpha)]) + merged, lits[0] + exact, exact + lits[-1], b""]
+    if len(lits) == 3:
+        # only one of the two overlaps merged
+        names["merged"].append(lits[0] + lits[1][segs[1][1]:] + lits[2])
+        names["merged"].append(lits[0] + lits[1] + lits[2][segs[2][1]:])
+    return pats, names
+
+
+def expand_pattern(p):
+    """A shortest text the pattern is meant to match (every `*` empty, `?` -> 'a', a class -> one member);
+    tolerant of malformed patterns.  Returns the text and the number of one-character tokens."""
+    out = b""
+    i = 0
+    while i < len(p):
+        c = p[i]
+        if c == 0x2A:
+            i += 1
+        elif c == 0x3F:
+            out += b"a"
+            i += 1
+        elif c == 0x5C and i + 1 < len(p):
+            out += p[i + 1:i + 2]
+            i += 2
+        elif c == 0x5B and p.find(b"]", i + 1) > 0:
+            j = p.find(b"]", i + 1)
+            body = p[i + 1:j]
+            if body[:1] == b"^":
+                out += b"q" if b"q" not in body else b"~"
+            elif len(body) >= 3 and body[1:2] == b"-":
+                out += body[0:1]
+            else:
+                out += body[:1] if body else b""
+            i = j + 1
+        else:
+            out += p[i:i + 1]
+            i += 1
+    return out
+
+
+def shortenings(r, text, n):
+    """`text` with one or two characters removed / cut off: names shorter than the pattern's literal part"""
+    out = []
+    for _ in range(n):
+        if not text:
+            break
+        t = text
+        for _ in range(r.range(1, 2)):
+            if t:
+                i = r.below(len(t))
+                t = t[:i] + t[i + 1:]
+        out.append(t)
+    if len(text) >= 2:
+        out += [text[:-1], text[1:]]
+    return out
+
+
 def aux_for(r, kind):
     if kind == "keys":
         return r.choice(TYPES)
@@ -211,6 +349,13 @@ def gen_desc(r, count, regime):
     n = r.choice([0, 1, 2, 3, 5, 8, 12, 20, 30, 45, 60]) if r.chance(2, 3) else r.range(0, 60)
     names = gen_names(r, n)
     pat = gen_pattern(r, names) if r.chance(3, 5) else None
+    if r.chance(1, 6):
+        # MATCH over a literal*literal family: the names that tell a correct backtracking matcher from a wrong one
+        pats, fam = gen_star_family(r)
+        pat = r.choice(pats)
+        for k in [x for xs in fam.values() for x in xs] + shortenings(r, expand_pattern(pat), 3):
+            if k not in names and len(names) < 60:
+                names.append(k)
     ty = None
     if kind == "keys" and r.chance(2, 5):
         ty = r.choice(TYPES).encode() if r.chance(9, 10) else r.choice([b"STRING", b"foo", b"", b"str\xff", b"Hash"])
@@ -528,6 +673,15 @@ class C19:
                      (b"\\", b"\\"), (b"*", b""), (b"", b""), (b"a*", b"a"), (b"*a", b"ba"), (b"a*b*c", b"aXbXbXc"), (b"*ab", b"aab"), (b"a?c", b"abc"),
                      (b"[^a]", b"b"), (b"[^]", b"x"), (b"[]", b"x"), (b"[a-c-e]", b"-"), (b"\\*", b"*"), (b"\\*", b"a"), (b"*\\", b"a\\")]:
             self.glob(p, t)
+        # literal*literal with overlapping literals: merged (too short), exact, padded
+        for p, ts in [(b"user:*:x", [b"user:x", b"user::x", b"user:a:x", b"user:", b"user:x:x"]),
+                      (b"*sess*sion", [b"session", b"sesssion", b"sessXsion", b"sesion"]),
+                      (b"ab*bX", [b"abX", b"abbX", b"ab_bX", b"abb"]),
+                      (b"aXa*aXa", [b"aXaXa", b"aXaaXa", b"aXa"]),
+                      (b"a*a*a", [b"a", b"aa", b"aaa", b"aba"]),
+                      (b"ab**b", [b"ab", b"abb"]), (b"ab*?*b", [b"abb", b"abxb", b"ab"]), (b"a?*?a", [b"aba", b"abba"])]:
+            for t in ts:
+                self.glob_case(p, t, "star-overlap", "corpus")
 
     def malformed(self, r, n):
         """option parsing: wrong arity, bad numbers, unknown options (both sides must refuse alike)"""
@@ -570,23 +724,50 @@ class C19:
             self.rep.count("cmd." + ("err" if a == "err" else "ok"))
             self.rep.nontrivial(("cmd", args[0], a == "err", len(args)))
 
+    def glob_case(self, p, t, family, name_class):
+        """one (pattern, name) pair: SCAN MATCH over the single key on the implementation vs Code and Spec"""
+        fresh = (p, t) not in self.glob_cache
+        implv, codev, specv = self.glob(p, t)
+        cls = "x" if specv is None else ("=" if specv == implv else "dev")
+        if fresh:
+            self.rep.count("glob.family.%s.%s" % (family, name_class))
+            self.rep.count("glob.verdict.%s.%s.%s" % (family, name_class, "x" if specv is None else ("match" if specv else "nomatch")))
+        self.rep.nontrivial(("glob", family, name_class, cls, implv, min(len(p), 6), min(p.count(b"*"), 3), any(c >= 0x80 for c in p + t),
+                             b"[" in p, b"?" in p, b"\\" in p, len(t) < len(expand_pattern(p))))
+        if specv is not None and implv != specv:
+            shape = self.match_shape(p, t, "sound" if implv else "complete")
+            desc = {"kind": "keys", "count": 10, "pattern": hx(p), "type": None, "novalues": False, "via_cmd": False,
+                    "initial": [[hx(t), "string"]], "steps": []}
+            self.oracle_failures.append((shape, "SCAN MATCH over the single key: implementation %s, glob semantics over bytes %s" % (implv, specv), desc,
+                                         {"op": "glob %s %s" % (hx(p), hx(t)), "family": family, "name_class": name_class}))
+        elif specv is None:
+            key = "outside-fragment:" + ("match" if implv else "nomatch")
+            self.deviations.setdefault(key, {"pattern": hx(p), "text": hx(t), "impl": implv})
+
     def globs(self, r, n):
         names = gen_names(r, 40)
         for i in range(n):
             t = r.choice(names) if r.chance(3, 4) else gen_name(r)
             p = gen_pattern(r, [t] if r.chance(1, 2) else names)
-            implv, codev, specv = self.glob(p, t)
-            cls = "x" if specv is None else ("=" if specv == implv else "dev")
-            self.rep.nontrivial(("glob", cls, implv, min(len(p), 6), any(c >= 0x80 for c in p + t), b"[" in p, b"*" in p, b"\\" in p))
-            if specv is not None and implv != specv:
-                shape = self.match_shape(p, t, "sound" if implv else "complete")
-                desc = {"kind": "keys", "count": 10, "pattern": hx(p), "type": None, "novalues": False, "via_cmd": False,
-                        "initial": [[hx(t), "string"]], "steps": []}
-                self.oracle_failures.append((shape, "SCAN MATCH over the single key: implementation %s, glob semantics over bytes %s" % (implv, specv), desc,
-                                             {"op": "glob %s %s" % (hx(p), hx(t))}))
-            elif specv is None:
-                key = "outside-fragment:" + ("match" if implv else "nomatch")
-                self.deviations.setdefault(key, {"pattern": hx(p), "text": hx(t), "impl": implv})
+            self.glob_case(p, t, "random", "drawn")
+            # the pattern against its own shortest expansion, and against names shorter than that
+            if r.chance(1, 4):
+                e = expand_pattern(p)
+                self.glob_case(p, e, "random", "expansion")
+                for t2 in shortenings(r, e, 2):
+                    self.glob_case(p, t2, "random", "shorter-than-pattern")
+        # literal*literal families (overlapping literals, star runs, ? and classes mixed in)
+        fr = r.fork("star-families")
+        for j in range(max(1, n // 120)):
+            pats, fam = gen_star_family(fr)
+            if j == 0:
+                self.rep.sample({"star_family": {"patterns": [hx(x) for x in pats], "names": {k: [hx(x) for x in v] for k, v in fam.items()}}})
+            for p in pats:
+                for ncls, ts in fam.items():
+                    for t in ts:
+                        self.glob_case(p, t, "star-overlap", ncls)
+                for t in shortenings(fr, expand_pattern(p), 2):
+                    self.glob_case(p, t, "star-overlap", "shorter-than-pattern")
 
     def exhaustive(self, nkeys, ncalls):
         """every history of `ncalls` key sets over `nkeys` keys, COUNT 1 and 2 (model validation, and the
